@@ -302,6 +302,15 @@ def apply_op(doc, op):
         raise Lenient("move/copy onto the root is ignored by the library")
     if name in EXT_OPS and not path:
         raise Unspecified("extension on the root")
+    if name not in ("move", "copy", "swap") and "from" in op:
+        # rfc6902 4: a member not defined for the operation MUST be ignored; the library decodes and parses every "from"
+        if not isinstance(op["from"], str):
+            raise Lenient("\"from\" of an operation that does not use it is not a string: the library rejects the object")
+        try:
+            if op["from"] != "/":
+                ptr_parse(op["from"])
+        except (PatchError, Lenient):
+            raise Lenient("\"from\" of an operation that does not use it is no pointer: the library rejects the patch")
     if name in ("move", "copy", "swap"):
         if not isinstance(op.get("from"), str):
             raise PatchError("from missing")
